@@ -199,6 +199,12 @@ func (lex *Lexer) Reset() {
 	lex.state = LexerNormal
 	lex.linenum = 1
 	lex.preBuiltinRune = 0
+	lex.prevrune = 0
+	lex.prevToken = Token{}
+	lex.prevPrevToken = Token{}
+	// the look-back ring must not remember the previous text
+	lex.priori = 0
+	lex.priorRune = [20]rune{}
 	lex.buffer.Reset()
 }
 
